@@ -4,6 +4,8 @@ SPECIFICATION Spec
 CONSTANTS
   Rcpts = {"ra", "rb"}
   NTs = {1, 2}
+  Lmtps = {TRUE, FALSE}
+  Holds = {TRUE, FALSE}
   Fails = {"perm"}
   MaxFaults = 1
   MaxCmds = 6
